@@ -25,11 +25,19 @@ Two kinds of cases.
   residual (1e-6 relative to c_i + c_j; skipped only when the code said it did not converge);
   py vs pyx within 1e-6.  Oracle (Python): the same statements on Fractions, plus log-likelihood
   >= that of the transpose estimate and of random / perturbed reversible matrices on the same support.
+  The residual bound of a converged run is 1e-5 relative to c_i + c_j (1e-4 when the positive counts span more than a
+  factor 100): see _tol2; the other kinds (dtype, scale, stop) keep 1e-6.
 * "dtype" (round 3s): the same counts held in a narrow dtype (int8/uint8/int16/uint16/int32/uint32, float16 dense
   only, float32; values close to the dtype's maximum, so that c_ij + c_ji and the row sums do not fit) and in
   float64 / int64: builders.mle (dense and every sparse container of the rule), _prinz_mle_py run to convergence
   and with max_iter = k must return a model and the same one (1e-9) as from the float64 counts; the compiled entry
   point only accepts float64 (ValueError from the typed signature otherwise; tagged, not demanded).
+* shape "balanced-core" (round 3s, second wave; sweep k = 2..3, mono, cert and stop cases): integer counts whose low-numbered
+  states are flow-balanced (row sum = column sum: mutually symmetric counts plus circulations), so that in the first
+  sweep every pair among them is mapped onto itself exactly (x_i = 2 c_i there), while the higher-numbered states
+  exchange very unequal counts; the balanced pairs have to move from the second sweep on, when their row sums have.
+  Sweep and mono cases also demand (oracle key py-pyx-agree-k-sweeps) that runs of exactly k sweeps of the two
+  implementations return the same model (1e-6).
 * "scale" (round 3s): T(s C) = T(C) for s = 2^e (e in -10 -20 -34 -40 20 and one of -100 -70 40 60 100; scaling
   by a power of two is exact in doubles and every product / quotient / root of the iteration commutes with it; only
   numpy's scalar b**2 in the Python code is not always correctly rounded, so runs of exactly k sweeps agree to
@@ -62,6 +70,7 @@ RULE = ("strongly connected count matrices, n = 1..7 (sweep cases n <= 5): rando
         "dtype cases: n = 2..4, counts close to the maximum of int8/uint8/int16/uint16/int32/uint32/float16/float32 (pair sums and row sums exceed it), the same numbers as float64/int64 must give the same model through mle (all containers), _prinz_mle_py (converged and k sweeps). "
         "scale cases: n = 2..4, counts multiplied by 2^e, e in {-10,-20,-34,-40,20} and one of {-100,-70,40,60,100}: k-sweep results equal between scales (1e-9) and equal to the model of the unscaled counts, converged results certified relative to the scaled counts. "
         "leaf cases: every chain / star / leaf-on-dense-block pattern for n = 2..5 with and without self counts on the other states, integer and real counts, as sweep and cert cases (both implementations). "
+        "balanced-core cases: n = 5..7, integer counts, 3..4 flow-balanced states (symmetric counts + circulations) with the lowest indices followed by 2..3 states exchanging very unequal counts, every core state tied to the rest through cycles; as sweep (k = 2, 3), mono, stop and cert cases. "
         "non-trivial := n >= 3, not symmetric, a model was returned and at least one sweep changed X (stop cases: at least 2 sweeps)")
 TRUSTED = ["translator/tr_prinz.py (array-element renaming, loop-shape recognition; the logl terms and the convergence test are translated, `logl = 0` / `oldlogl = logl` / `break` / the warning condition n_iter == max_iter - 1 are recognised as the shape prinz_loop implements; np.log -> klog, C log10 -> klog10 = ln/ln 10)",
            "modelled not verified: IEEE rounding (comparison at 1e-9 / 1e-6), numpy sum/division broadcasting, scipy sparse <-> dense conversion; the stopping rule is modelled (prinz_loop) and compared on stop cases whose iteration needs <= 30 sweeps, the executable ln on Q is a 2^-64 approximation (Model/Prinz.v qlog, not proved)",
@@ -188,6 +197,63 @@ def _matrix(rng, n, shape, style):
     if shape == "two-empty-diag":
         return [[F(0), _val(rng, style)], [_val(rng, style), F(0)]]
     raise ValueError(shape)
+
+
+def _balance(M):
+    """row sum - column sum per state"""
+    n = len(M)
+    return [sum(M[i]) - sum(M[j][i] for j in range(n)) for i in range(n)]
+
+
+def _stationary_pairs(M):
+    """Observed pairs (i < j) that the first sweep maps onto themselves: both states flow-balanced (then x_i = 2 c_i for
+    the start X = C + C^T and the pair's fixed point is c_ij + c_ji = x_ij) and neither row sum moved earlier in the sweep."""
+    n = len(M)
+    bal = _balance(M)
+    moved = {i for i in range(n) if bal[i] != 0}
+    out = []
+    for i in range(n - 1):
+        for j in range(i + 1, n):
+            if M[i][j] + M[j][i] == 0:
+                continue
+            if i in moved or j in moved:
+                moved.update((i, j))
+            else:
+                out.append((i, j))
+    return out
+
+
+def _balanced_core(rng, n):
+    """integer counts; states 0..m-1 flow-balanced (symmetric counts + circulations among them), states m..n-1 exchange
+    very unequal counts; every pair of groups is tied by symmetric counts so that the core pairs lie on cycles through the
+    unbalanced states"""
+    for _ in range(400):
+        t = rng.choice([2, 2, 3]) if n >= 6 else 2
+        m = n - t
+        M = [[F(0)] * n for _ in range(n)]
+        for i in range(n):
+            if rng.random() < 0.7:
+                M[i][i] = F(rng.randrange(1, 10))
+            for j in range(i + 1, n):
+                if rng.random() < (0.75 if (i < m) == (j < m) else 0.6):
+                    M[i][j] = M[j][i] = F(rng.randrange(1, 10))
+        for _ in range(rng.choice([0, 0, 1, 2])):        # a circulation keeps every state balanced, not the pairs symmetric
+            cyc = rng.sample(range(m), 3)
+            k = F(rng.randrange(1, 6))
+            for a, b in zip(cyc, cyc[1:] + cyc[:1]):
+                M[a][b] += k
+        for p in range(m, n):                            # the imbalance: unequal exchange among the last states
+            for q in range(p + 1, n):
+                if q == p + 1 or rng.random() < 0.5:
+                    a, b = F(rng.randrange(1, 4)), F(rng.randrange(12, 60))
+                    M[p][q], M[q][p] = (a, b) if rng.random() < 0.5 else (b, a)
+        bal = _balance(M)
+        core_pairs = [(i, j) for (i, j) in _stationary_pairs(M) if j < m]
+        tied = all(any(M[i][q] > 0 for q in range(m, n)) for i in range(m))
+        if _strongly_connected(M) and all(bal[i] == 0 for i in range(m)) and all(bal[i] != 0 for i in range(m, n)) \
+                and len(core_pairs) >= 2 and tied:
+            return M
+    raise ValueError("balanced core")
 
 
 def _leaf_family(rng):
@@ -323,6 +389,22 @@ def generate(rng, tier):
             cases.append({"kind": "sweep", "C": _enc(M), "k": rng.choice([1, 2, 3]), "shape": "leaf-" + pattern, "style": style})
             cases.append({"kind": "cert", "C": _enc(M), "container": rng.choice(CONTAINERS), "shape": "leaf-" + pattern,
                           "style": style, "seed": rng.randrange(10 ** 6)})
+    # flow-balanced low-numbered states, imbalance among the last states (integer counts): the pairs of the balanced
+    # states are exact fixed points of the first sweep and must move afterwards
+    for t in range(30 if quick else 300):
+        kind = ("sweep", "cert", "mono", "cert", "sweep", "stop")[t % 6]
+        n = rng.choice([5, 5, 5, 6]) if kind in ("sweep", "mono", "stop") else rng.choice([5, 5, 6, 7])
+        if quick and kind != "cert":
+            n = 5
+        M = _balanced_core(rng, n)
+        base = {"kind": kind, "C": _enc(M), "shape": "balanced-core", "style": "int"}
+        if kind == "sweep":
+            base["k"] = rng.choice([2, 3, 3])
+        elif kind == "mono":
+            base.update(K=rng.choice([4, 5, 6]), tol0=rng.random() < 0.5)
+        elif kind == "cert":
+            base.update(container=rng.choice(CONTAINERS), seed=rng.randrange(10 ** 6))
+        cases.append(base)
     # narrow dtypes
     for M, dt in (([[0, 100, 3], [90, 100, 0], [0, 5, 120]], "int8"), ([[0, 30000], [30000, 7]], "int16"),
                   ([[200, 200], [100, 0]], "uint8")):
@@ -618,11 +700,12 @@ def coq_check(c, r):
                 cq(_sweep_tol(c)), P, swp, P, cn(n), Cm, cn(c["k"]), _cres(ri)))
         return " && ".join("(%s)" % p for p in parts) if parts else None
     parts = []
+    M = _dec(c["C"])
     for impl in ("mle", "py", "pyx"):
         ri = r[impl]
         if "err" in ri:
             return None
-        parts.append("cert_ok %s %s %s %s %s %s" % (cq(TOL1), cq(TOL2), cb(not ri["warn"]), Cm, _cmat(ri["T"]),
+        parts.append("cert_ok %s %s %s %s %s %s" % (cq(TOL1), cq(_tol2(M)), cb(not ri["warn"]), Cm, _cmat(ri["T"]),
                                                   clist(ri["pi"], lambda x: cq(F(x)), "Q")))
     parts.append("result_near %s %s %s" % (cq(TOL_IMPL), _cres(r["py"]), _cres(r["pyx"])))
     parts.append("result_near %s %s %s" % (cq(F(1, 10 ** 12)), _cres(r["mle"]), _cres(r["py"])))
@@ -646,7 +729,26 @@ def _rownorm(X):
     return [[x / sum(r) for x in r] for r in X]
 
 
-def _cert(M, ri, out, name):
+def _worst(M, T):
+    """largest residual of the Prinz equations relative to c_i + c_j"""
+    n = len(M)
+    crs = [sum(r) for r in M]
+    return max(abs(T[i][j] * crs[i] + T[j][i] * crs[j] - (M[i][j] + M[j][i])) / (crs[i] + crs[j]) for i in range(n) for j in range(n))
+
+
+def _tol2(M):
+    """Bound on the residual of the Prinz equations (relative to c_i + c_j) of a run that stopped without a warning.
+    The stopping rule is an absolute test (1e-10) on the change of the pseudo log-likelihood between two sweeps; the
+    property promises self-consistency up to that convergence tolerance, which is not a bound on the residual: slowly
+    mixing counts meet the test while the residual is still of order 1e-6 (and 20000 further sweeps under tol = 1e-13
+    lower it by a tenth).  Observed on the unchanged code over 6000 random matrices of every family, n <= 7: <= 9.9e-7
+    when the positive counts lie within a factor 100 of each other, <= 5.7e-6 beyond (strongly asymmetric pairs, real
+    counts; 1.54e-6 in the thorough run of seed 1).  Demanded: 1e-5 resp. 1e-4; seeded changes leave >= 1e-3."""
+    pos = [x for row in M for x in row if x > 0]
+    return 100 * TOL2 if (pos and max(pos) / min(pos) > 100) else 10 * TOL2
+
+
+def _cert(M, ri, out, name, tol2=TOL2):
     n = len(M)
     T = [[F(x) for x in row] for row in ri["T"]]
     pi = [F(x) for x in ri["pi"]]
@@ -660,9 +762,8 @@ def _cert(M, ri, out, name):
     if any(abs(pi[i] * T[i][j] - pi[j] * T[j][i]) > TOL1 for i in range(n) for j in range(n)):
         out.append(("detailed-balance", "%s: pi_i T_ij != pi_j T_ji: C=%s" % (name, _enc(M))))
     if not ri["warn"]:
-        worst = max(abs(T[i][j] * crs[i] + T[j][i] * crs[j] - (M[i][j] + M[j][i])) / (crs[i] + crs[j])
-                    for i in range(n) for j in range(n))
-        if worst > TOL2:
+        worst = _worst(M, T)
+        if worst > tol2:
             out.append(("self-consistency", "%s: relative residual %.3g of the Prinz equations without a convergence warning: C=%s"
                         % (name, float(worst), [[str(x) for x in r] for r in M])))
 
@@ -802,6 +903,18 @@ def _oracle_scale(c, r, M, out):
                                 % (name, e, float(d), c["C"])))
 
 
+def _agree_k(c, py, pyx, k, out):
+    """both implementations stopped by max_iter = k (both warned, so both executed exactly k sweeps of the same iteration):
+    they return the same model.  Each is within _sweep_tol of the k-sweep model (Coq comparison), so the distance between
+    them is below 2 _sweep_tol on the unchanged code; demanded: the tolerance of the converged comparison, 1e-6 (2e-6 for
+    counts spread over more than two orders of magnitude)."""
+    if not out and "T" in py and "T" in pyx and py["warn"] and pyx["warn"]:
+        d = _maxdiff(py, pyx)
+        if d > max(TOL_IMPL, 2 * _sweep_tol(c)):
+            out.append(("py-pyx-agree-k-sweeps", "after exactly %d sweeps (max_iter=%d, both warned) the pure-Python and the compiled "
+                        "model differ by %.3g: C=%s" % (k, k, float(d), c["C"])))
+
+
 def oracle(c, r):
     out = []
     M = _dec(c["C"])
@@ -824,6 +937,7 @@ def oracle(c, r):
                 if out:
                     return out
             _mono(c, M, runs, out, impl)
+        _agree_k(c, r["py"][-1], r["pyx"][-1], c["K"], out)
         return out
     if c["kind"] == "stop":
         for impl in ("py", "pyx"):
@@ -854,7 +968,9 @@ def oracle(c, r):
             # after k sweeps only the structural facts are promised
             _cert(M, dict(ri, warn=True), out, impl)
         else:
-            _cert(M, ri, out, impl)
+            _cert(M, ri, out, impl, _tol2(M))
+    if c["kind"] == "sweep" and not rejected and not out:
+        _agree_k(c, r["py"], r["pyx"], c["k"], out)
     if c["kind"] != "cert" or out or rejected:
         return out
     if not r.get("input_unchanged", True):
@@ -1011,6 +1127,8 @@ def tags(c, r):
                 t.append("cert-convergence-warning-%s" % impl)
             elif "T" in r[impl]:
                 t.append("cert-converged-%s" % impl)
+                if all(sum(row) > 0 for row in M) and _worst(M, [[F(x) for x in row] for row in r[impl]["T"]]) > TOL2:
+                    t.append("cert-residual-above-1e-6-%s" % impl)
     if n >= 2 and any(sum(1 for j in range(n) if j != i and (M[i][j] > 0 or M[j][i] > 0)) == 1 and M[i][i] == 0 for i in range(n)):
         t.append("leaf-state")
         t.append("leaf-state-" + c["kind"])
@@ -1019,6 +1137,18 @@ def tags(c, r):
             for impl in ("py", "pyx"):
                 if "T" in r.get(impl, {}):
                     t.append("leaf-returned-model-" + impl)
+    if c["style"] == "int" or all(x.denominator == 1 for row in M for x in row):
+        sp = _stationary_pairs(M)
+        if len(sp) >= 2 and any(b != 0 for b in _balance(M)):
+            # >= 2 observed pairs are exact fixed points of the first sweep although the counts are not symmetric
+            t.append("first-sweep-stationary-pairs")
+            t.append("first-sweep-stationary-pairs-" + c["kind"])
+            if c["kind"] in ("sweep", "mono") and c.get("k", c.get("K", 0)) >= 2:
+                for impl in ("py", "pyx"):
+                    ri = r.get(impl)
+                    ri = ri[-1] if isinstance(ri, list) and ri else ri
+                    if isinstance(ri, dict) and "T" in ri and ri["warn"]:
+                        t.append("first-sweep-stationary-pairs-later-sweep-compared-" + impl)
     if n == 2 and M[0][0] == 0 and M[1][1] == 0:
         t.append("a-eq-0-branch")
     if any(M[i][i] > 0 for i in range(n)):
@@ -1041,7 +1171,10 @@ ESSENTIAL_TAGS = ["sweep-k1", "sweep-k2", "sweep-k3", "sweep-compared-py", "swee
                   "dtype-wrapped-symmetrised-row-sum-nonpositive", "dtype-k-sweeps-compared", "dtype-converged-compared",
                   "scale-2^-10-py_k-compared", "scale-2^-34-py_k-compared", "scale-2^-40-py_k-compared", "scale-2^20-py_k-compared",
                   "scale-2^-20-pyx_k-compared", "scale-2^-40-pyx_k-compared", "scale-2^-40-mle-converged-compared",
-                  "scale-2^-34-py-converged-compared", "scale-2^-34-pyx-converged-compared", "scale-pair-sums-below-1e-8"]
+                  "scale-2^-34-py-converged-compared", "scale-2^-34-pyx-converged-compared", "scale-pair-sums-below-1e-8",
+                  # round 3s, second wave
+                  "first-sweep-stationary-pairs-sweep", "first-sweep-stationary-pairs-cert", "first-sweep-stationary-pairs-mono",
+                  "first-sweep-stationary-pairs-later-sweep-compared-py", "first-sweep-stationary-pairs-later-sweep-compared-pyx"]
 
 
 def search(rng, tier):
